@@ -35,6 +35,7 @@ type Thread struct {
 	stack           []value.Value     // Value stack
 	callFrames      []CallFrame       // Call stack
 	errStackTrace   *value.StackTrace // The most recent error stack trace
+	errValue        value.Value       // The error that errStackTrace was captured for
 	threadPool      *ThreadPool
 	Aborter         *value.Aborter
 	state           state
@@ -193,9 +194,22 @@ func (vm *Thread) InspectCallStack() {
 }
 
 func (vm *Thread) throwIfErr(err value.Value) {
-	if !err.IsUndefined() {
-		vm.throw(err)
+	if err.IsUndefined() {
+		return
 	}
+
+	// The error may have been thrown in a nested run of the VM
+	// (a closure, method or generator called from native code).
+	// Keep the stack trace captured at the original throw,
+	// it already contains the frames of this run.
+	if stackTrace := vm.errStackTrace; stackTrace != nil && vm.errValue == err {
+		vm.errStackTrace = nil
+		vm.errValue = value.Undefined
+		vm.rethrow(err, stackTrace)
+		return
+	}
+
+	vm.throw(err)
 }
 
 func (vm *Thread) callBytecodePromise(promise *Promise) {
@@ -502,6 +516,7 @@ func (vm *Thread) run() {
 		case bytecode.STOP_ITERATION:
 			vm.state = errorState
 			vm.errStackTrace = vm.BuildStackTrace()
+			vm.errValue = symbol.L_stop_iteration.ToValue()
 			vm.push(symbol.L_stop_iteration.ToValue())
 			return
 		case bytecode.YIELD:
@@ -1530,6 +1545,7 @@ func (vm *Thread) PrintError() {
 func (vm *Thread) ResetError() {
 	vm.state = idleState
 	vm.errStackTrace = nil
+	vm.errValue = value.Undefined
 }
 
 func (vm *Thread) GetStackTrace() *value.StackTrace {
@@ -3963,6 +3979,7 @@ func (vm *Thread) rethrow(err value.Value, stackTrace *value.StackTrace) {
 		if vm.cfp == uintptr(unsafe.Pointer(&vm.callFrames[0])) || vm.lastCallFrame().stopVM {
 			vm.state = errorState
 			vm.errStackTrace = stackTrace
+			vm.errValue = err
 			vm.push(err)
 			panic(stopVM{})
 		}
@@ -3978,6 +3995,7 @@ func (vm *Thread) throwNoCatch(err value.Value) {
 func (vm *Thread) rethrowNoCatch(err value.Value, stackTrace *value.StackTrace) {
 	vm.state = errorState
 	vm.errStackTrace = stackTrace
+	vm.errValue = err
 	vm.push(err)
 	vm.restoreLastFrame()
 }
@@ -4035,6 +4053,7 @@ func (vm *Thread) CaptureStackTrace() *value.StackTrace {
 
 	vm.state = errorState
 	vm.errStackTrace = vm.BuildStackTrace()
+	vm.errValue = value.Undefined
 	return vm.errStackTrace
 }
 
